@@ -453,7 +453,7 @@ def compare_cg(ctx, case, out, mod):
 
 def _model_case(case, fuel=200):
     """what the model driver is sent for a case"""
-    c = {k: v for k, v in case.items() if k not in ("hpd", "klass", "family")}
+    c = {k: v for k, v in case.items() if k not in ("hpd", "klass", "family", "reuse", "pre")}
     if case.get("op") == "ctrl":       # the model reads squared norms
         c["obs"] = [[fstr(F(a) ** 2), fstr(F(b) ** 2), v] for a, b, v in case["obs"]]
     if case.get("op") in ("cg", "ie"):
@@ -481,6 +481,8 @@ def _one_cg(ctx, c, mod):
         ctx.stat(f"cg:n<={[2, 4, 8, 16, 40][sum(c['n'] > t for t in (2, 4, 8, 16))]}")
         ctx.stat(f"cg:family={c.get('family')}")
         ctx.stat(f"cg:nreset={c['nreset']}")
+        if c.get("reuse"):
+            ctx.stat("cg:controller-reused")
         if "error" in out:
             ctx.stat(f"cg:error={out['error']}")
         else:
@@ -554,6 +556,8 @@ def _one_ctrl(ctx, c, mod):
     if True:
         out = impl.run_ctrl(c)
         ctx.stat(f"ctrl:{c['ctrl']['type']}")
+        if c.get("pre"):
+            ctx.stat("ctrl:controller-reused")
         if out.get("raised"):
             ctx.stat("ctrl:raised")
         for st in (out.get("res") or []):
@@ -680,6 +684,7 @@ def run(ctx):
     cases += [gen.ctrl_case(rng) for _ in range(ctx.n(500, 6000))]
     cases += gen.cg_exact_cases(rng, ctx.n(24, 120))
     cases += gen.cg_error_cases(rng, ctx.n(24, 120))
+    cases += gen.cg_reuse_cases(rng, ctx.n(40, 240))
     cases += [gen.cg_case(rng, nmax=8) for _ in range(ctx.n(150, 900))]
     if not ctx.quick:
         cases += [gen.cg_case(rng, nmax=40, nmin=9) for _ in range(48)]
